@@ -59,7 +59,8 @@ def _typed(x):
     if isinstance(x, list):
         return "[" + ",".join(_typed(i) for i in x) + "]"
     if isinstance(x, dict):
-        return "{" + ",".join(f"{_typed(k)}:{_typed(v)}" for k, v in x.items()) + "}"
+        # dicts compare like Python dicts: insertion order is not part of the value
+        return "{" + ",".join(sorted(f"{_typed(k)}:{_typed(v)}" for k, v in x.items())) + "}"
     if isinstance(x, (set, frozenset)):
         return "set{" + ",".join(sorted(_typed(i) for i in x)) + "}"
     return f"{type(x).__name__}:{x!r}"
